@@ -25,6 +25,7 @@ from ..engine import symex as sx
 from ..engine import values as V
 from ..engine.values import SAtom, SReal, SBool, SInt
 from . import feat_units as FU
+from . import featrange_units as FR
 
 LEVEL = "other"
 EXPLANATION = ("Deductive: ordering/selection contracts of get_feature_names and compute_features, guard and "
@@ -257,6 +258,18 @@ def unit_range_lemmas(tier=None, seed=None):
     return S.finish()
 
 
+def replay_value(ob):
+    """native: the synthetic curve shapes of the bounded run, for the feature named in the obligation"""
+    r = unit_bounded_features(tier="quick")
+    b = r.bounded[0]
+    feat = ob.oid.split(".value.", 1)[-1].split(".")[0]
+    fi = b.failing_input or {}
+    if not b.ok and fi.get("feature") == feat:
+        return {"confirmed": True, "input": {k: v for k, v in fi.items() if k != "what"}, "observed": fi.get("what"),
+                "required": "NaN or a finite value in the feature's range"}
+    return {"confirmed": False}
+
+
 # ------------------------------------------------------------------ bounded
 def unit_bounded_features(tier=None, seed=0):
     import time
@@ -324,6 +337,113 @@ def unit_bounded_features(tier=None, seed=0):
             samples.append({**case, "values": [float(x) for x in vals[:4]]})
         if problems:
             break
+    # synthetic curve shapes on a recorded, fitted curve: the force of the indentation part and the residuals
+    # (the 'fit' column) are replaced by patterns the recorded files do not contain
+    MAGNITUDE = [n for n in allf if n.startswith("feat_con_") and n != "feat_con_cp_curvature"
+                 and n not in ("feat_con_apr_size", "feat_con_apr_flatness")]
+    rng = np.random.default_rng(seed or 3)
+    def long_curve():
+        """recorded object with a synthetic paraboloid curve: contact at 40 % of the approach, so that the
+        indentation part is long (about 1200 samples)"""
+        c = nanite.IndentationGroup(data / files[0])[0]
+        c.apply_preprocessing(["compute_tip_position"])
+        sg = np.array(c["segment"]) == 0
+        na, nr = int(sg.sum()), int((~sg).sum())
+        xa = np.linspace(2e-6, -3e-6, na)
+        xr = np.linspace(-3e-6, 2e-6, nr)
+        hz = lambda xx: np.where(xx < 0, 4 / 3 * 3000 / (1 - 0.25) * np.sqrt(5e-6) * np.abs(xx) ** 1.5, 0.0)
+        tp, fo = np.array(c["tip position"]), np.array(c["force"])
+        tp[sg], tp[~sg] = xa, xr
+        fo[sg], fo[~sg] = hz(xa) + 1e-12 * rng.standard_normal(na), hz(xr)
+        c["tip position"], c["force"] = tp, fo
+        return c
+    def recorded_curve():
+        c = nanite.IndentationGroup(data / files[0])[0]
+        c.apply_preprocessing(P)
+        return c
+
+    def setup_base(mk):
+        base = mk()
+        base.fit_model(model_key="hertz_para", weight_cp=False)
+        bf, bx = np.array(base["force"]), np.array(base["tip position"])
+        bseg = np.array(base["segment"]) == 0
+        bcp = base.fit_properties["params_fitted"]["contact_point"].value
+        bind = bseg & (bx < bcp)
+        return bf, bseg, bind, int(bind.sum()), float(np.nanmax(bf[bseg]))
+    shapes = []
+    # (a) force shapes of the indentation part, on the recorded curve
+    bf, bseg, bind, nind, amp = setup_base(recorded_curve)
+    shapes.append(("flat indentation", recorded_curve, bf, bseg, bind, np.full(nind, bf[bind][0]), None))
+    shapes.append(("falling indentation", recorded_curve, bf, bseg, bind, -np.abs(bf[bind]), None))
+    # (b) residual patterns, on the long synthetic curve
+    bf, bseg, bind, nind, amp = setup_base(long_curve)
+    t = np.linspace(0, 1, nind)
+
+    def glitches(sign):
+        r = np.zeros(nind)
+        for c in rng.integers(30, nind - 30, size=4):
+            # ringing: a short excursion whose central sample overshoots the other way (the raw residual is far
+            # above the trend there while the slightly smoothed one is below it)
+            r[c - 2:c + 3] = -sign * 0.15 * amp
+            r[c] = sign * 0.10 * amp
+        return r
+    for label, r_ in (("noise", 0.01 * amp * rng.standard_normal(nind)),
+                      ("positive spikes", np.where(rng.random(nind) < 0.01, 0.3 * amp, 0.0)),
+                      ("negative spikes", np.where(rng.random(nind) < 0.01, -0.3 * amp, 0.0)),
+                      ("ringing glitches (+)", glitches(+1)), ("ringing glitches (-)", glitches(-1)),
+                      ("slow wave", 0.05 * amp * np.sin(6 * np.pi * t)),
+                      ("step", np.where(t > 0.5, 0.1 * amp, -0.1 * amp))):
+        shapes.append((label, long_curve, bf, bseg, bind, None, r_))
+    for label, mk, bf, bseg, bind, force_ind, resid_ind in shapes:
+        c4 = mk()
+        f4 = bf.copy()
+        if force_ind is not None:
+            f4[bind] = force_ind
+        c4["force"] = f4
+        c4.fit_model(model_key="hertz_para", weight_cp=False)
+        if not c4.fit_properties["success"]:
+            continue
+        if resid_ind is not None:
+            ft = np.array(c4["fit"])
+            ft[bind] = np.array(c4["force"])[bind] + resid_ind
+            c4["fit"] = ft
+        try:
+            v4 = F.compute_features(c4)
+        except BaseException as exc:
+            problems.append({"shape": label, "what": f"raised {exc!r}"[:120]})
+            continue
+        ne += 1
+        positive_force = np.nanmax(np.array(c4["force"])[bseg]) > 0
+        for n, v in zip(allf, v4):
+            if not (np.isnan(v) or np.isfinite(v)):
+                problems.append({"shape": label, "feature": n, "what": f"value {v} (neither NaN nor finite)"})
+            elif n.startswith("feat_bin_") and not (np.isnan(v) or v in (0.0, 1.0)):
+                problems.append({"shape": label, "feature": n, "what": f"binary feature = {v}"})
+            elif n in ("feat_con_apr_size", "feat_con_apr_flatness") and not (np.isnan(v) or 0 <= v <= 1):
+                problems.append({"shape": label, "feature": n, "what": f"fraction feature = {v}"})
+            elif n in MAGNITUDE and positive_force and v < 0:
+                problems.append({"shape": label, "feature": n, "what": f"magnitude feature = {v}"})
+    # fitted curves with the contact point (fixed) a few samples before the deepest point of the approach
+    import copy
+    for off in (1, 2, 3, 7):
+        c5 = recorded_curve()
+        xa = np.array(c5["tip position"])[np.array(c5["segment"]) == 0]
+        p5 = copy.deepcopy(c5.get_initial_fit_parameters(model_key="hertz_para"))
+        p5["contact_point"].set(value=float(xa[int(np.argmin(xa)) - off]), vary=False)
+        c5.fit_model(model_key="hertz_para", params_initial=p5, weight_cp=False)
+        if not c5.fit_properties["success"]:
+            continue
+        ne += 1
+        for what, fn_ in (("compute_features", lambda: F.compute_features(c5)), ("rate_quality", c5.rate_quality)):
+            try:
+                r5 = fn_()
+                if what == "compute_features" and not all(np.isnan(v) or np.isfinite(v) for v in r5):
+                    problems.append({"shape": f"contact point {off} samples before the deepest point",
+                                     "what": "feature neither NaN nor finite"})
+            except BaseException as exc:
+                problems.append({"shape": f"contact point {off} samples before the deepest point",
+                                 "feature": "feat_con_idt_maxima_75perc" if "argmin" in repr(exc) else what,
+                                 "what": f"{what} raised {exc!r}"[:140]})
     # unfitted / unsuccessful states: NaN rather than an error
     for label in ("fresh", "preprocessed", "edited"):
         cur = IU._curve()
@@ -342,11 +462,13 @@ def unit_bounded_features(tier=None, seed=0):
     res = UnitResult(unit="bounded.features_on_curves")
     res.bounded.append(BoundedResult(
         bid="C17.bounded.features_on_fitted_curves", ok=not problems, evaluations=ne, distinct=ne,
-        bound=f"{len(files)} recorded curves x (values, 4 common scale factors, retract perturbation) + 3 unfitted states",
+        bound=f"{len(files)} recorded curves x (values, 4 common scale factors, retract perturbation) + 9 synthetic curve "
+              "shapes (force / residual patterns) + 3 unfitted states",
         detail="finite or NaN, binary in {0,1}, fractions in [0,1], scale independent (rtol 1e-9), retract independent, "
                "curve unchanged" if not problems else str(problems[0])[:300], samples=samples,
         failing_input=problems[0] if problems else None,
-        witness="" if not problems else str(problems[0].get("feature", problems[0].get("state", "curve"))),
+        witness="" if not problems else str(problems[0].get("feature", problems[0].get("state", "curve")))
+        + (":" + problems[0]["shape"] if problems and "shape" in problems[0] else ""),
         time_s=round(time.time() - t0, 2)))
     return res
 
@@ -377,8 +499,10 @@ def unit_canaries(tier=None, seed=None):
 def units(tier):
     us = [Unit("get_feature_names", unit_feature_names), Unit("compute_features", unit_compute_features),
           Unit("feature_predicates", FU.unit_predicates, prop="C17"), Unit("feature_guards", FU.unit_feature_guards, prop="C17"),
-          Unit("purity", unit_purity), Unit("range_lemmas", unit_range_lemmas),
-          Unit("bounded.features_on_curves", unit_bounded_features)]
+          Unit("purity", unit_purity)] + FR.units(replay=replay_value) + \
+         [Unit("bounded.features_on_curves", unit_bounded_features)]
+    # (the hand-written range lemmas "expressions as in the source" were a model of the code; they are replaced by
+    #  the feature functions themselves under symbolic execution: featrange_units.py)
     if tier == "thorough" and not os.environ.get("VF_NO_CANARIES") and str(REPO) == "/repo":
         us.append(Unit("selftest.canaries", unit_canaries))
     return us
